@@ -454,3 +454,92 @@ def c17(ctx):
     ctx.rule = "one evaluation = one run over a header with an adversarial declared size (0 .. 2^56-2, every vint width, at the root and inside known-/unknown-size masters) under a limit M in {16, 1 KiB, 100 k, 1 MiB, default 4 GB, none}, a tolerance set and a capacity, payload mostly missing; every call records the peak heap growth (counting allocator) and the buffer capacity (hook); distinct as for C03"
     ctx.assumptions += ["peak heap growth is measured by the harness's counting global allocator around each call; 64 KiB slack covers error values, the emission queue and the returned item",
                         "no case asks the real code for more than 8 MiB it may legitimately allocate (sizes within a limit above that are not generated)"]
+
+
+@prop("C20")
+def c20(ctx):
+    consts = {"MaxLen": 4 if ctx.quick else 5, "Sigma": SIGMA12, "OneReadPerCall": "FALSE"}
+    r = C.tlc_mc("C20_MC_Async", "MC_Async", cfg(constants=consts, invariants=["Refines", "EndsOnce"]), workers=12, timeout=3000, heap="12g", coverage=False)
+    ctx.add_mc(r)
+    reader_check(ctx, "C20", None, ["async"], gen_args=None, l1=False)
+    ctx.rule = "one evaluation = one run: the blocking iterator over the bytes, then TagIteratorAsync::next() loops and into_stream() on a single-threaded executor over a scripted AsyncRead (whole input at once; every partition for inputs <= 10 bytes; random partitions; inputs above the 64 KiB transfer buffer), with buffered-tag sets; relation P_C04 (items, offsets, first error; the stream by kind/id/value); runs in which the source needed more than one read and that differ are explained only by the listed deviation DEV_ASYNC_STRADDLE"
+    ctx.assumptions += ["MC_Async checks the intended wrapper (refinement to the blocking reader for every poll schedule); the current one-read-per-call wrapper is the named deviation (OneReadPerCall = TRUE reproduces the counterexample)",
+                        "multi-read runs that differ from the blocking run are reported as KNOWN-FINDING, so regressions confined to multi-read schedules are not detected by this check"]
+
+
+# --------------------------------------------------------------------------- C18
+@prop("C18")
+def c18(ctx):
+    import derive_gen as G
+    # (1) bounded model of the declaration language
+    r = C.tlc_mc("C18_MC_Derive", "MC_Derive", cfg(constants={"MaxVariants": 2 if ctx.quick else 3}, invariants=["AcceptedIsWellFormed", "AcceptedHasGlobals", "RejectsListedFaults"]), workers=12, heap="8g", coverage=False)
+    ctx.add_mc(r)
+    # (2) the macro implementation as a library: acceptance of both front-ends
+    n_ok, n_bad = (150, 250) if ctx.quick else (1200, 2500)
+    decls = G.declarations(ctx.seed, n_ok, n_bad)
+    din = ctx.path("decls_in.ndjson")
+    with open(din, "w") as f:
+        for d in decls:
+            f.write(json.dumps({"n": d["n"], "variants": [{k: v[k] for k in ("name", "id", "ty", "path", "has_id", "has_ty", "dup_id")} for v in d["variants"]]}) + "\n")
+    probe_dir = os.path.join(C.HARNESS, "derive_probe")
+    if not os.path.exists(os.path.join(probe_dir, "Cargo.lock")):
+        import shutil
+        shutil.copy(os.path.join(C.REPO, "Cargo.lock"), os.path.join(probe_dir, "Cargo.lock"))
+    p = subprocess.run(["cargo", "build", "--offline"], cwd=probe_dir, env=C.offline_env(), stdout=subprocess.PIPE, stderr=subprocess.STDOUT, text=True)
+    if p.returncode != 0:
+        raise C.ToolError("derive-probe build failed:\n" + p.stdout[-3000:])
+    dout = ctx.path("decls_out.ndjson")
+    p = subprocess.run([os.path.join(C.HARNESS, "target-probe", "debug", "derive-probe"), din, dout], stdout=subprocess.PIPE, stderr=subprocess.PIPE, text=True)
+    if p.returncode != 0:
+        raise C.ToolError("derive-probe failed: " + p.stderr[-2000:])
+    verdicts = {json.loads(l)["n"]: json.loads(l) for l in open(dout)}
+    # (3) generated code of the declarations both front-ends accept, compiled by the real macros against /repo
+    accepted = [d for d in decls if verdicts[d["n"]]["attr"] == "ok" and verdicts[d["n"]]["easy"] == "ok"]
+    accepted = accepted[: (120 if ctx.quick else 1000)]
+    gen_dir = os.path.join(C.HARNESS, "gencrate")
+    rs = ctx.path("decls.rs")
+    with open(rs, "w") as f:
+        f.write(G.gencrate_source(accepted))
+    if not os.path.exists(os.path.join(gen_dir, "Cargo.lock")):
+        import shutil
+        shutil.copy(os.path.join(C.REPO, "Cargo.lock"), os.path.join(gen_dir, "Cargo.lock"))
+    p = subprocess.run(["cargo", "build", "--offline"], cwd=gen_dir, env=C.offline_env({"VERIF_DECLS_RS": rs}), stdout=subprocess.PIPE, stderr=subprocess.STDOUT, text=True)
+    tables = {}
+    if p.returncode != 0:
+        # a declaration the macro-as-library accepted does not compile: that is a finding about the macro, shown as a violation below
+        ctx.extra["gencrate_build_error"] = p.stdout[-1500:]
+        raise C.ToolError("generated crate does not build although both front-ends accepted every declaration in it:\n" + p.stdout[-2500:])
+    tout = ctx.path("tables.ndjson")
+    p = subprocess.run([os.path.join(C.HARNESS, "target-gen", "debug", "gencrate"), tout], stdout=subprocess.PIPE, stderr=subprocess.PIPE, text=True)
+    if p.returncode != 0:
+        # a panic of generated code ("bad specification") is data
+        ctx.extra["gencrate_run_error"] = p.stderr[-1500:]
+    for l in open(tout):
+        e = json.loads(l)
+        tables[(e["n"], e["front"])] = (e["rows"], e["panics"])
+    # (4) the trace: decl events for all declarations, table events for the compiled ones
+    tf = ctx.path("derive.ndjson")
+    kinds = {}
+    with open(tf, "w") as f:
+        for d in decls:
+            f.write(json.dumps({"ev": "case", "n": d["n"], "comp": "derive"}, separators=(",", ":")) + "\n")
+            vs = [{"name": v["name"], "id": v["idw"], "ty": v["ty"], "path": v["path"], "has_id": v["has_id"], "has_ty": v["has_ty"], "dup_id": v["dup_id"]} for v in d["variants"]]
+            vd = verdicts[d["n"]]
+            f.write(json.dumps({"ev": "decl", "n": d["n"], "kind": d["kind"], "variants": vs, "attr": vd["attr"] if vd["attr"] != "panic" else "error", "easy": vd["easy"] if vd["easy"] != "panic" else "error",
+                                "tokens_equal": vd["tokens_equal"], "src": vd["attr_src"][:400]}, separators=(",", ":")) + "\n")
+            kinds[d["kind"] + ":" + vd["attr"]] = kinds.get(d["kind"] + ":" + vd["attr"], 0) + 1
+            ctx.count(json.dumps(vs), nontrivial=len(vs) > 1)
+            for front in ("attr", "easy"):
+                if (d["n"], front) in tables:
+                    f.write(json.dumps({"ev": "table", "n": d["n"], "front": front, "variants": vs, "rows": tables[(d["n"], front)][0], "panics": tables[(d["n"], front)][1]}, separators=(",", ":")) + "\n")
+            if len(ctx.samples) < 4 and d["n"] % 97 == 3:
+                ctx.samples.append({"kind": d["kind"], "source": vd["attr_src"][:300], "attr": vd["attr"], "easy": vd["easy"]})
+        f.write(json.dumps({"ev": "end"}, separators=(",", ":")) + "\n")
+    ctx.extra["declaration_kinds_by_verdict"] = kinds
+    ctx.extra["generated_specifications_compiled"] = len(accepted) * 2
+    if not any(k.startswith("broken") and k.endswith(":error") for k in kinds) or not kinds.get("ok:ok"):
+        raise C.ToolError("vacuity: no accepted or no rejected declarations")
+    ctx.validate("C18_DeriveTrace", "DeriveTrace", tf, per_case=True)
+    ctx.rule = "one evaluation = one enum declaration run through both macro front-ends (macro sources of the working tree called as a library on token streams): random well-formed declarations (1-9 variants, six types, ids of 1-8 bytes and non-vint ids, paths of any depth with placeholders) and declarations broken by one rule (13 rules); the accepted ones are additionally compiled with the real macros and every declared id plus undeclared probe ids queried through the generated trait functions; distinct = distinct declarations; non-trivial = more than one variant"
+    ctx.assumptions += ["DeriveDecl.tla (Accepts, Table) is the reference semantics of the declaration language; compile errors are observed as rejections of the macro implementation called as a library (diagnostic texts are not checked)",
+                        "translation validation: generated code is observed through its trait functions on probe values, not by inspecting tokens"]
